@@ -214,7 +214,7 @@ def run_shard(shard, tier, seed):
                 items.append((b, cls))
     else:
         modrms = (0x00, 0x05, 0x44, 0x84, 0xc1, 0xd8, 0xf9, 0x24)
-        pf = [b'\x67', b'\xf2', b'\xf3', b'\xf0', b'\x64', b'\x2e', b'\x66\x67', b'\x26', b'\x36', b'\x3e', b'\x65']
+        pf = [b'\x67', b'\xf2', b'\xf3', b'\xf0', b'\x64', b'\x2e', b'\x66\x67', b'\x26', b'\x36', b'\x3e', b'\x65', b'\x64\xf2', b'\x64\xf3', b'\x2e\x66', b'\x66\xf2']
         for cell in cl:
             for b, cls in x86space.strings_for_cell(cell, 'quick', seed, prefixes=pf, modrms=modrms, sibs=[0x24, 0x65], nfill=0):
                 items.append((b, cls))
